@@ -3,6 +3,8 @@ package drive
 import (
 	"encoding/json"
 	"fmt"
+	"sync/atomic"
+	"time"
 )
 
 // Runner executes one program (a JSON line) of a family and returns its trace
@@ -10,6 +12,21 @@ import (
 type Runner func(line []byte) ([]Ev, error)
 
 var families = map[string]Runner{}
+
+// hangs counts watchdog expiries in this process; after a few, the watchdog
+// shortens so that a tree on which everything hangs does not stall the run.
+var hangs int32
+
+// Watchdog returns the time to wait for a program before declaring a hang.
+func Watchdog(normal time.Duration) time.Duration {
+	if atomic.LoadInt32(&hangs) >= 3 {
+		return 300 * time.Millisecond
+	}
+	return normal
+}
+
+// NoteHang records a watchdog expiry.
+func NoteHang() { atomic.AddInt32(&hangs, 1) }
 
 // Register adds a program family (called from init functions).
 func Register(fam string, r Runner) { families[fam] = r }
